@@ -765,6 +765,7 @@ pub fn run(seed: u64, tier: &str, ev: &mut Evidence) -> Vec<Violation> {
     specs.push(("pinned:blocks-nested-200".into(), ProgSpec::Source(nesting_template(0, 200))));
     let outs: Vec<Out1> = par_map(specs.len(), |i| {
         let mut rng = Rng::for_case(seed, "C06", ENGINE, i as u64);
+        super::util::breadcrumb("C06", json!({"kind": "program", "program": specs[i].1.to_json()}));
         exercise(&specs[i].0, &specs[i].1, &mut rng, n_tuples)
     });
     // ---- batches into one output directory -----------------------------------------------------
